@@ -13,6 +13,10 @@ add("C01", "exploration",
     "Exhaustive enumeration, on the real Context with harness plugin graphs (chain, filter, same-kind merge, two-kind loop, multi-output, overlap window, down-chunking, exhaust), of every disjoint source row set of <=3 rows x every law-abiding chunking (incl. empty / zero-duration chunks, independent per source) x processor/worker/lazy/capacity/rechunk cells x every pre-stored subset of data types; oracle = whole-run evaluation of the graph + contiguity + re-read of everything stored from a fresh context. Threaded runs execute under the controlled scheduler; a slice is explored over thread schedules (delay-bounded, stateless).",
     "small-scope hypothesis (<=3 rows/source, 5-point grid); enumerated threaded cells run one fixed schedule, schedules are exhausted only to delay bound 1-2 for the slice named in the evidence; no real OS processes",
     "bounded exhaustive enumeration of inputs x configurations on the implementation (+ delay-bounded schedule exploration under a controlled scheduler) vs whole-run reference", "graphs")
+add("C02", "model_checking",
+    "Explicit-state breadth-first search over operation histories of the real Context API (set_config of shared / private / untracked options, register of version bumps, same-named classes with another default, other classes, new_context, make, get_array, get_array from a second context, enabling fuzzy matching) on a 3-plugin chain bound to a shared DataDirectory; a state is the history that reaches it (replayed on a fresh context and directory), deduplicated by a canonical state that includes the plugin-cache signature; after every operation the keys must equal those of a brand-new context with the same settings, get_array must equal the rows defined by the current variants/options, the key-change relation must hold, fuzzy requests must return matching stored data and write nothing; keys are recomputed in subprocesses under 3 hash seeds x 2 option insertion orders.",
+    "history depth 4 (thorough 5), one plugin chain, prefix-partitioned BFS (dedup per partition)",
+    "explicit-state BFS over API operation histories with canonical-state dedup, every transition executed on the implementation", "histbfs")
 add("C03", "exploration",
     "Exhaustive enumeration of every sorted interval array (<=3-4 rows) x every law-abiding chunk sequence x dtype x compressor x save-rechunk setting x serial/thread-pool saving x plain/executor/rechunk-on-load reading through the real FileSaver.save_from and backend loader; oracle: rows bit-identical in order, same overall range, contiguous chunks, boundaries equal to the written ones (no rechunk) or in row-free gaps (rechunk), and every metadata field consistent with the files on disk. Thorough additionally explores the completion orders of pool writes under the controlled scheduler.",
     "small-scope hypothesis (<=4 rows, 6-point grid); dtype/compressor/executor rotate over inputs in quick; pool writes run under a fixed schedule except in the thorough schedule slice",
@@ -57,10 +61,31 @@ add("C13", "model_checking",
     "Stateless model checking of the real threaded processor with a consumer that stops pulling after k chunks: every schedule with up to B delays runs until quiescence (no enabled thread); the number of source chunks produced at rest must be the same set for runs of N and 2N chunks (N above the buffer ceiling) and below k + stages x (2 x capacity + 2); in every state no eager mailbox exceeds its capacity; a monitor on Mailbox._can_fetch checks at every sender gate decision that a driving subscriber waits for a message that is not in the mailbox. The bare lazy mailbox is additionally explored over its FULL reachable state space with the same monitor.",
     "delay bound 1 (2 for chain2) for the processor layer; full state space only for the bare mailbox (<=3-4 messages, <=3 subscribers); worker pools not covered (they disable lazy mode)",
     "delay-bounded exhaustive exploration of thread interleavings to quiescence + explicit-state exploration of the bare mailbox", "vsched")
+add("C14", "exploration",
+    "Exhaustive enumeration of 1-3 subruns drawn from a menu of chunk layouts (rows at chunk edges, empty subruns, zero-duration chunks, time gaps between subruns) x superrun-capable level at depth 1 or 2 x write_superruns x rechunk targets x processors x redefinition histories through the real define_run / get_iter / storage path; oracle: rows == ordered concatenation of the subruns' rows (on the fly and re-read), per-chunk subrun bookkeeping (listed runs, spans inside the run and inside the chunk, adjacency, metadata == re-read chunk), stored data unavailable after redefinition.",
+    "<=3 subruns, <=3 chunks each; rotating write/rechunk/processor choices in quick",
+    "bounded exhaustive enumeration of configurations on the implementation vs per-subrun reference", "graphs")
+add("C15", "model_checking",
+    "Preemption-bounded model checking of multi-run get_array / make with two worker threads sharing one Context: the pool primitives are scheduler-controlled and every source line of strax/context.py that touches the plugin registry or the plugin / level / run-default caches is a scheduling point (sys.settrace line events), so every interleaving of those accesses with at most B preemptions is executed; oracle: result == ordered concatenation of sequential per-run results with the run id, failing runs raise or are omitted, no crash, no deadlock, no temporary plugin left registered.",
+    "atomicity between selected lines (confirmed by an all-lines exploration at lower bound); per-run processing single-threaded inside each worker; 2-3 runs, 2 workers",
+    "preemption-bounded exhaustive exploration of thread interleavings at source-line granularity (controlled scheduler + line tracing)", "vsched")
+add("C16", "exploration",
+    "Exhaustive enumeration of stored layouts (every disjoint row set <=3 rows x every law-abiding chunking) x copy_to_frontend, stand-alone rechunker (serial / thread / in-process 'process' mode, replace, new destination), rechunk-on-load with and without executor, and per-chunk make for every grouping of the dependency's chunks followed by merge_per_chunk_storage; oracle: identical rows, same overall range and tiling, destination metadata consistent with files, source byte-identical unless replaced.",
+    "<=3 rows, 6-point grid; real OS processes not used; parameter rotation in quick",
+    "bounded exhaustive enumeration of inputs x configurations on the implementation vs source data", "smallscope")
 add("C17", "exploration",
     "Exhaustive enumeration of all configurations of <=4 things x <=3 containers on a 7-point grid (both encodings, windows -2..3) against direct quadratic evaluations of the docstring definitions, under the documented preconditions; unsorted inputs must be rejected; all unsorted (time,channel) arrays of <=4 rows for stable sorting.",
     "small-scope hypothesis; zero-length intervals and the 'randomly for larger arrays' clause are outside",
     "bounded exhaustive enumeration of inputs vs quadratic reference", "smallscope")
+
+add("C18", "exploration",
+    "Exhaustive enumeration of every integer waveform over {0..3} of length <=7-8 in 1-3 fragments and 1-2 channels x scalar / per-channel / noise-scaled thresholds x baseline fractions against a definitional hit finder (all hit fields), every (left,right) extension for cut_outside_hits against 'keep exactly the samples within the extensions, continuing into the linked neighbour fragment, metadata untouched', all short record sequences for record_links, all short raw waveforms for baseline / integrate / zero_out_of_bounds.",
+    "amplitude alphabet {0..3}; batches of pulses per call; cut_baseline excluded (does not compile with the installed numba)",
+    "bounded exhaustive enumeration of inputs vs definitional reference", "smallscope")
+add("C19", "exploration",
+    "Exhaustive enumeration of every hit set of <=4-5 hits on a small grid x channel assignments x gap thresholds x extensions x max_duration x cuts against the gap-clustering definition (required / forbidden / free split decisions, spans, areas, disjointness); all pairs of binary 6-sample waveforms on 2 channels through find_hits -> find_peaks -> sum_waveform with forced down-sampling (area conservation per channel, integral), merge_peaks over every consecutive range, replace_merged, local-minimum split_peaks tiling; symmetric_moving_average, index_of_fraction, compute_center_time, compute_widths vs their formulas on every waveform <=6-7 samples.",
+    "small scope (<=5 hits, 2 channels); float tolerance 1e-5; highest_density_region and natural-breaks splitting not covered",
+    "bounded exhaustive enumeration of inputs vs definitional reference", "smallscope")
 
 import importlib.util
 extra = os.path.join(V, "tools", "manifest_extra.py")
@@ -75,7 +100,7 @@ ENG = dict(
     smallscope=("vlib/smallscope.py", "exhaustive small-scope input generators + fork-pool runner (vlib/runner.py)"),
     vsched=("vlib/vsched.py", "controlled scheduler for real threads (drop-in threading/futures namespaces) + stateless DFS explorer with canonical-state pruning (vlib/explore.py, vlib/canon.py)"),
     fsfault=("vlib/fsfault.py", "file-system operation interposer enumerating every fault / crash point of a write history"),
-    histbfs=("vlib/histbfs.py", "breadth-first search over API operation histories with canonical-state dedup"),
+    histbfs=("vlib/checks/c02.py", "breadth-first search over API operation histories with canonical-state dedup"),
     graphs=("vlib/graphs.py", "harness plugin-graph catalogue with whole-run reference evaluation"),
 )
 man = dict(version=1, setup_cmd="./vcheck setup",
